@@ -463,7 +463,55 @@ def drv_duplicates(ctx: Ctx, sub: SubCheck):
     ctx.tally.notes.append(f"{sub.name}: {n} directed histories")
 
 
+def drv_long_runs(ctx: Ctx, sub: SubCheck):
+    """Lesson A.3 (thresholds only long homogeneous runs reach): many records, and one op repeated many times.
+    (a) N auto-creating lookups of N distinct addresses (N = 300 / 1200), then every address looked up again three times
+    (same object, nothing created), each record patched with its own dmr_id / dynamic attribute, every other record
+    unchanged (the full-state comparison after every op does that), lookups again;
+    (b) each of a handful of ops repeated 300 times on a storage with three records."""
+    n = ctx.pick(300, 1200)
+    addrs = [[f"10.{1 + i // 250}.{i % 250}.{(i * 7) % 250 + 1}", 50000 + (i % 3)] for i in range(n)]
+    ops = [{"op": "match_incoming", "addr": a, "auto_create": True, "patch": {}} for a in addrs]
+    for rnd in range(2):
+        ops += [{"op": "match_incoming", "addr": a, "auto_create": bool(rnd), "patch": {}} for a in addrs[:: 1 + rnd]]
+    ops += [{"op": "match_incoming", "addr": a, "auto_create": False, "patch": {"dmr_id": 1000 + i, DYN_KEYS[i % len(DYN_KEYS)]: i}} for i, a in enumerate(addrs[::5])]
+    ops += [{"op": "match_incoming", "addr": a, "auto_create": False, "patch": {}} for a in addrs[::3]]
+    # the full-state comparison after every op is quadratic in the number of records: compare every 25th op and at the end
+    case = {"ops": ops, "compare_every": 25}
+    ctx.run_case(sub.name, oracle_history_sparse, case)
+    ctx.tally.case(sub.name, key={"many_records": n}, nontrivial=True, cls=f"many_records_{n}")
+    a0, a1, a2 = ADDRS[0], ADDRS[1], ADDRS[2]
+    setup = [{"op": "match_incoming", "addr": a, "auto_create": True, "patch": {}} for a in (a0, a1, a2)]
+    repeated = [
+        {"op": "match_incoming", "addr": a1, "auto_create": False, "patch": {}},
+        {"op": "match_incoming", "addr": a1, "auto_create": True, "patch": {"registered": True}},
+        {"op": "match_incoming", "addr": ["10.9.9.9", 1], "auto_create": False, "patch": {}},
+        {"op": "save", "rec": 1, "patch": {"callsign": "OK1AAA"}},
+        {"op": "match_attr", "field": "address_in", "value": a2},
+        {"op": "match_ip_incoming", "ip": a1[0]},
+        {"op": "match_uuid", "rec": 2},
+        {"op": "attr", "rec": 0, "key": DYN_KEYS[0], "value": 7},
+        {"op": "delete_attr", "rec": 0, "key": DYN_KEYS[0]},
+    ]
+    for op in repeated:
+        for reps in (10, 33, 300):
+            case = {"ops": setup + [op] * reps + [{"op": "match_incoming", "addr": a, "auto_create": False, "patch": {}} for a in (a0, a1, a2)]}
+            ctx.run_case(sub.name, oracle_history, case)
+            ctx.tally.case(sub.name, key=case, nontrivial=True, cls=f"one_op_repeated_{reps}")
+
+
+def oracle_history_sparse(case):
+    """replay with the (quadratic) full-state comparison only after every `compare_every`-th op and after the last one"""
+    r = Runner()
+    every = int(case.get("compare_every", 1))
+    full = r.compare_state
+    for i, op in enumerate(case["ops"]):
+        r.compare_state = full if (i % every == 0 or i == len(case["ops"]) - 1) else (lambda op: None)
+        r.apply(op)
+
+
 SUBCHECKS = [
+    SubCheck("long_runs", oracle_history, drv_long_runs, "300 / 1200 records created, re-looked-up and patched one by one; single ops repeated 10 / 33 / 300 times"),
     SubCheck("duplicate_address_stability", oracle_history, drv_duplicates, "directed histories: several records share one address_in, single-field perturbations, the returned record must stay the same"),
     SubCheck("exhaustive_histories", oracle_history, drv_exhaustive, "all op sequences over a 14-op alphabet up to length 5 (quick) / 6 (thorough) vs the reference model"),
     SubCheck("random_histories", oracle_history, drv_random, "Hypothesis RuleBasedStateMachine histories (up to 60 / 300 steps) vs the reference model"),
